@@ -18,6 +18,9 @@ type Child struct {
 	root string
 	id   string
 	cfg  string
+	// Supplementary children (e.g. a sampling race-detector pass) do not
+	// affect the parent's exhaustive flag.
+	Supplementary bool
 }
 
 // StartChild starts `verifmc-<cfg> -check <id>` in the background with its
@@ -68,6 +71,14 @@ func (c *Ctx) Join(ch *Child) {
 		os.Exit(2)
 	}
 	nsig := 0
+	if i := strings.Index(string(ch.out), "WARNING: DATA RACE"); i >= 0 {
+		nsig++
+		excerpt := string(ch.out)[i:]
+		if len(excerpt) > 3000 {
+			excerpt = excerpt[:3000]
+		}
+		c.Violation("["+ch.cfg+" build] the Go race detector reports a data race in the free-running pass of "+ch.id, excerpt)
+	}
 	for _, l := range strings.Split(string(ch.out), "\n") {
 		if strings.HasPrefix(l, "  signature: ") {
 			nsig++
@@ -78,7 +89,7 @@ func (c *Ctx) Join(ch *Child) {
 		fmt.Fprintf(os.Stderr, "%s: child %s (%s build) failed: %v\n%s\n", c.ID, ch.id, ch.cfg, ch.err, ch.out)
 		os.Exit(2)
 	}
-	if !ev.Coverage.Exhaustive {
+	if !ev.Coverage.Exhaustive && !ch.Supplementary {
 		c.Exhaustive = false
 	}
 	c.Eval(ev.Coverage.Evaluations)
